@@ -171,3 +171,11 @@ func lenMix(t *rapid.T, label string, max, smallPct int, bounds ...int) (int, st
 		return rapid.IntRange(0, min(96, max)).Draw(t, label), "len=small"
 	}
 }
+
+// clone copies b, keeping nil nil and empty empty.
+func clone(b []byte) []byte {
+	if b == nil {
+		return nil
+	}
+	return append([]byte{}, b...)
+}
